@@ -7,9 +7,9 @@
                       (b) non-empty local set ⊆ effective set of the parent, (c) own sets only on the root / below
                       splittable parents, (d) the model has files -> the element has an effective set
      Proj T w ff r i  i is visited by ser_heap started at r with filter ff;  ser_ids = the visited list (executable)
-   Hypotheses: Core / TreeInv = C03's invariants (Tree/Inv.v); CoreStep / TreeStep = C03's step theorems (Tree/InvProofs.v
-   Core_step, TreeInv_step) as explicit premises of the history and refutation theorems; Recursible = elements with
-   sub-elements do not have character content mode (C07).
+   Hypotheses: Core / TreeInv = C03's invariants (Tree/Inv.v; C03's step theorems Core_step / TreeInv_step of
+   Tree/InvProofs.v are used, not assumed); Recursible = elements with sub-elements do not have character content
+   mode (C07).
    Known10 = finding classes with witnesses below (add_to_file with a removed file; the root loses the last file of its
    own set; a moved element keeps its local sets).  Unowned = remove_file of a file whose own model link names another
    model (not reachable through the API, excluded).  Pending10 = OpMove, OpMoveAt and OpRemoveFile of the LAST file:
@@ -17,7 +17,7 @@
    [U] C10_eff_is_file_membership, C10_eff_executable, C10_eff_unique, C10_filter_is_eff, C10_ser_visits,
        C10_projection_closed, C10_nothing_lost, C10_add_to_file, C10_create_file, C10_remove_from_file,
        C10_frame_transfer (every operation that never writes a file set)
-   [P] C10_inv_partial, C10_history_partial, C10_remove_file_partial (another file remains; exactness of the removed
+   [P] C10_inv_partial, C10_history_partial, C10_reachable_partial, C10_remove_file_partial (another file remains; exactness of the removed
        set is checked by the oracle only), C10_self_contained (reduced to the XML layer)
    [F] C10_add_foreign_refuted, C10_root_last_refuted, C10_root_last_remove_file_refuted, C10_move_local_refuted
        (vm_compute on the tiny table set of Tree/Files.v). *)
@@ -102,18 +102,26 @@ Proof. exact remove_file_inv. Qed.
 Theorem C10_inv_partial :
   forall (T : tables) (tab_el tab_en : nametab) (check_fn : N -> list N -> res bool) (LATEST : N)
          (root_attrs : list (N * cdata)) (o : op) (w : world) (r : out value) (w' : world),
-  TreeInv w -> Core w' -> FilesInv T w -> Pending10 w o = false -> Known10 w o = false -> Unowned w o = false ->
+  TreeInv w -> FilesInv T w -> Pending10 w o = false -> Known10 w o = false -> Unowned w o = false ->
   run_op T tab_el tab_en check_fn LATEST root_attrs o w = Val (r, w') -> FilesInv T w'.
-Proof. exact inv_step_core. Qed.
+Proof. exact inv_step_all. Qed.
 
 Theorem C10_history_partial :
   forall (T : tables) (tab_el tab_en : nametab) (check_fn : N -> list N -> res bool) (LATEST : N)
-         (root_attrs : list (N * cdata)),
-  CoreStep T tab_el tab_en check_fn LATEST root_attrs -> TreeStep T tab_el tab_en check_fn LATEST root_attrs ->
-  forall (l : list op) (w w' : world), TreeInv w -> FilesInv T w ->
+         (root_attrs : list (N * cdata)) (l : list op) (w w' : world),
+  TreeInv w -> FilesInv T w ->
   steps_ok T tab_el tab_en check_fn LATEST root_attrs l w = true ->
   run_ops T tab_el tab_en check_fn LATEST root_attrs l w = Val w' -> TreeInv w' /\ FilesInv T w'.
-Proof. exact inv_histories. Qed.
+Proof. exact inv_histories_all. Qed.
+
+(* closed form: every state reached from the empty world by a history whose steps avoid C03's Known classes and
+   Known10 / Pending10 / Unowned (a decidable condition on the history) *)
+Theorem C10_reachable_partial :
+  forall (T : tables) (tab_el tab_en : nametab) (check_fn : N -> list N -> res bool) (LATEST : N)
+         (root_attrs : list (N * cdata)) (l : list op) (w' : world),
+  steps_ok T tab_el tab_en check_fn LATEST root_attrs l empty_world = true ->
+  run_ops T tab_el tab_en check_fn LATEST root_attrs l empty_world = Val w' -> TreeInv w' /\ FilesInv T w'.
+Proof. exact reachable_all. Qed.
 
 Theorem C10_self_contained :
   forall (T : tables) (Loads : world -> option N -> id -> Prop),
@@ -124,30 +132,22 @@ Proof. exact self_contained. Qed.
 
 (* ---------- the finding classes are real: witnesses on the tiny table set ---------- *)
 Theorem C10_add_foreign_refuted :
-  CoreStep TinyF.tiny TinyF.tiny_el TinyF.tiny_en TinyF.tiny_check_fn TinyF.LATEST [] ->
-  TreeStep TinyF.tiny TinyF.tiny_el TinyF.tiny_en TinyF.tiny_check_fn TinyF.LATEST [] ->
   exists w o r w', TreeInv w /\ FilesInv TinyF.tiny w /\ Known_add_foreign w o = true /\
                    TinyF.run o w = Val (r, w') /\ ~ FilesInv TinyF.tiny w'.
-Proof. exact add_foreign_refuted. Qed.
+Proof. exact add_foreign_refuted_all. Qed.
 
 Theorem C10_root_last_refuted :
-  CoreStep TinyF.tiny TinyF.tiny_el TinyF.tiny_en TinyF.tiny_check_fn TinyF.LATEST [] ->
-  TreeStep TinyF.tiny TinyF.tiny_el TinyF.tiny_en TinyF.tiny_check_fn TinyF.LATEST [] ->
   exists w o r w', TreeInv w /\ FilesInv TinyF.tiny w /\ Known_root_last w o = true /\
                    TinyF.run o w = Val (r, w') /\ ~ FilesInv TinyF.tiny w'.
-Proof. exact root_last_refuted. Qed.
+Proof. exact root_last_refuted_all. Qed.
 
 Theorem C10_root_last_remove_file_refuted :
-  CoreStep TinyF.tiny TinyF.tiny_el TinyF.tiny_en TinyF.tiny_check_fn TinyF.LATEST [] ->
-  TreeStep TinyF.tiny TinyF.tiny_el TinyF.tiny_en TinyF.tiny_check_fn TinyF.LATEST [] ->
   exists w o r w', TreeInv w /\ FilesInv TinyF.tiny w /\
                    Known_root_last w o && match o with OpRemoveFile _ _ => true | _ => false end = true /\
                    TinyF.run o w = Val (r, w') /\ ~ FilesInv TinyF.tiny w'.
-Proof. exact root_last_remove_file_refuted. Qed.
+Proof. exact root_last_remove_file_refuted_all. Qed.
 
 Theorem C10_move_local_refuted :
-  CoreStep TinyF.tiny TinyF.tiny_el TinyF.tiny_en TinyF.tiny_check_fn TinyF.LATEST [] ->
-  TreeStep TinyF.tiny TinyF.tiny_el TinyF.tiny_en TinyF.tiny_check_fn TinyF.LATEST [] ->
   exists w o r w', TreeInv w /\ FilesInv TinyF.tiny w /\ Known_move_local w o = true /\
                    TinyF.run o w = Val (r, w') /\ ~ FilesInv TinyF.tiny w'.
-Proof. exact move_local_refuted. Qed.
+Proof. exact move_local_refuted_all. Qed.
